@@ -45,15 +45,21 @@ NIL = '~nil~'
 WIRE = {'range': 'Range', 'content-length': 'Content-Length', 'if-match': 'If-Match',
         'if-none-match': 'If-None-Match', 'forwarded': 'Forwarded', 'x-forwarded-for': 'X-Forwarded-For',
         'x-real-ip': 'X-Real-IP', 'x-forwarded-proto': 'X-Forwarded-Proto', 'x-forwarded-host': 'X-Forwarded-Host',
-        'host': 'Host'}
+        'host': 'Host', 'accept': 'Accept'}
 HNAMES = sorted(WIRE)
 CASINGS = ('lower', 'Title', 'UPPER', 'mIxEd')
 ABSENT = {'p': False, 'o': False, 't': []}
-G_HDR = {'range': 'range', 'rset': 'range', 'clenx': 'content-length', 'clen': 'content-length', 'etag': 'if-none-match', 'fwd': 'forwarded',
+WS_SCHEMES = ('ws', 'wss')
+PREFERS_POOL = ['text/plain', 'application/json', 'application/xml']       # HeaderAccessOps!PrefersPool
+
+
+def kinds(rq):
+    """stacks that can express the request: ws / wss exist on ASGI only."""
+    return ('asgi',) if rq['scheme'] in WS_SCHEMES else ('wsgi', 'asgi')
+G_HDR = {'accept': 'accept', 'range': 'range', 'rset': 'range', 'clenx': 'content-length', 'clen': 'content-length', 'etag': 'if-none-match', 'fwd': 'forwarded',
          'xff': 'x-forwarded-for', 'host': 'host'}
 # accessors the specification says nothing about beyond "value or 400, same on every read"
-EXTRA_ATTRS = ('date', 'if_modified_since', 'if_unmodified_since', 'cookies', 'accept', 'client_accepts_json',
-               'client_accepts_xml', 'client_accepts_msgpack', 'user_agent', 'if_range', 'content_type')
+EXTRA_ATTRS = ('date', 'if_modified_since', 'if_unmodified_since', 'cookies', 'accept', 'client_accepts_msgpack', 'user_agent', 'if_range', 'content_type')
 
 
 def cased(name, c):
@@ -122,6 +128,10 @@ def build(rq, kind, wire_casing='Title', extra=()):
             env.pop('HTTP_HOST', None)          # HTTP/1.0 style request: the driver adds Host when absent
         return falcon.Request(env)
     sc = scope(r)
+    if rq['scheme'] in WS_SCHEMES:                 # the handshake request of a WebSocket connection
+        sc['type'] = 'websocket'
+        sc.pop('method', None)
+        sc['subprotocols'] = []
     if not rq['h']['host']['p']:
         sc['headers'] = [kv for kv in sc['headers'] if kv[0] != b'host']
     return falcon.asgi.Request(sc, _receive)
@@ -167,6 +177,10 @@ def observe(q, a, hn='', casing='Title'):
     try:
         if a == 'get_header':
             v = q.get_header(cased(hn, casing))
+        elif a == 'accepts_text_plain':
+            v = q.client_accepts('text/plain')
+        elif a == 'prefers':
+            v = q.client_prefers(list(PREFERS_POOL))
         else:
             v = getattr(q, a)
         return project(a, v), None
@@ -192,6 +206,7 @@ def accepts(spec, obs):
 
 
 SIMPLE = {
+    'accept': lambda t: t in (['application/json'], ['*/*;q=0.1']),
     'range': lambda t: len(t) >= 3 and t[0] == 'bytes' and t[1] == '=' and ',' not in t and ' ' not in t
     and not (len(t) > 3 and t[2] == '0' and t[3].isdigit()),
     'content-length': lambda t: len(t) >= 1 and all(x.isdigit() for x in t) and (t[0] != '0' or len(t) == 1),
@@ -263,6 +278,11 @@ class Gen:
                     el += ([';'] if el else []) + [p]
                 out += el
             return out
+        if g == 'accept':
+            out = []
+            for i in range(r.randint(1, 4)):
+                out += ([',', ' '] if i and r.random() < 0.6 else [','] if i else []) + [r.choice(self.v['accranges'])]
+            return out
         if g == 'xff':
             out = []
             for i in range(r.randint(1, 4)):
@@ -322,7 +342,7 @@ class Gen:
 
     def request(self):
         r = self.r
-        rq = base_req(r.choice(['http', 'https']))
+        rq = base_req(r.choice(['http', 'https', 'http', 'https', 'ws', 'wss']))
         rq['server'] = [r.choice(['srv.test', 'localhost']), r.choice([80, 443, 8000])]
         rq['peer'] = r.choice(['127.0.0.1', '192.0.2.1', '198.51.100.9'])
         rq['root'] = r.choice(['', '', '/app'])
@@ -334,6 +354,12 @@ class Gen:
                            ('host', 'host', .85)):
             if r.random() < p:
                 h[name] = self.header(g)
+        if r.random() < 0.55:
+            # Accept: elements (quoted parameters and weights included) recur inside DIFFERENT header values
+            # across the requests of this process, so process-wide parser caches are exercised by history
+            h['accept'] = self.header('accept') if r.random() < 0.85 else opaque(r.choice([
+                'application/json', '*/*', 'text/*;q=0', 'application/xml;q=x', ',,', '', 'a/b/c', ';',
+                'application/json; q=0.5, text/plain', 'text/html;q=1.5', 'text/plain;x="a,b";q=0, */*']))
         if r.random() < 0.25:
             h['x-real-ip'] = hdr([r.choice(self.v['addr'] + ['x y'])])
         if r.random() < 0.3:
@@ -343,7 +369,7 @@ class Gen:
         return rq
 
     def extra_headers(self):
-        """headers outside the TLA+ vocabulary: dates, cookies, accept (value-or-400 and idempotence only)."""
+        """headers outside the TLA+ vocabulary: dates, cookies (value-or-400 and idempotence only)."""
         r = self.r
         out = []
         for name in ('Date', 'If-Modified-Since', 'If-Unmodified-Since'):
@@ -363,9 +389,6 @@ class Gen:
                 parts.append(r.choice(['a', 'b', 'sid', 'a b', '', 'x"y']) + r.choice(['=', '=', '', ' = ']) +
                              r.choice(['1', 'abc', '"q\\"uoted"', '"', 'v;', '\xe9', '']))
             out.append(('Cookie', r.choice(['; ', ';', ' ;; ']).join(parts)))
-        if r.random() < 0.3:
-            out.append(('Accept', r.choice(['application/json', '*/*', 'text/*;q=0', 'application/xml;q=x', ',,', '',
-                                            'application/json; q=0.5, text/plain', 'a/b/c', ';', 'text/html;q=1.5'])))
         return out
 
 
@@ -402,7 +425,7 @@ def run(ctx):
             vocab = meta[0]['vocab']
             spec_attrs = set(meta[0]['attrs'])
     r.coverage = {k: (v, v) for k, v in guard.items()}          # firing counters stand in for -coverage (see META)
-    ctx.require_coverage(r, ['XRange', 'XRSet', 'XCLen', 'XCLenX', 'XETag', 'XFwd', 'XXff', 'XHost', 'XReadUri', 'XReadForwardedUri',
+    ctx.require_coverage(r, ['XAccept', 'XRange', 'XRSet', 'XCLen', 'XCLenX', 'XETag', 'XFwd', 'XXff', 'XHost', 'XReadUri', 'XReadForwardedUri',
                              'XReadRelativeUri', 'XReadPrefix', 'XReadForwardedPrefix', 'XReadForwarded',
                              'XReadAccessRoute', 'XReadETags', 'XReadPlain', 'XGetHeader'])
     ctx.extra['action_firings'] = guard
@@ -435,19 +458,24 @@ def run(ctx):
         if 'g' in row:
             rows[(row['g'], row['scheme'], tuple(row['t']))] = row
     n_a1 = 0
-    for idx, ((g, scheme, toks), row) in enumerate(sorted(rows.items())):
+    order = sorted(rows.items())
+    # HistoryFree across requests: what a request reports is a function of its own headers, whatever the
+    # process parsed before.  Accept elements are parsed through process-wide caches, so the Accept table is
+    # replayed a second time in the opposite order (every element text has then been seen inside other values).
+    order += [x for x in reversed(order) if x[0][0] == 'accept']
+    for idx, ((g, scheme, toks), row) in enumerate(order):
         rq = base_req(scheme)
         rq['h'][G_HDR[g]] = hdr(toks)
         if ''.join(toks) != row['text']:
             raise MachineryError('text mismatch for %r' % (row,))
         nt = nontrivial(rq)
         casings = (CASINGS[idx % 4],) if quick else (CASINGS[idx % 4], CASINGS[(idx + 1 + idx // 4) % 4])
-        for kind in ('wsgi', 'asgi'):
+        for kind in kinds(rq):
             for wc in casings:
                 q = build(rq, kind, wc)
                 case = {'leg': 'A1', 'kind': kind, 'grammar': g, 'scheme': scheme, 'tokens': list(toks),
                         'text': row['text'], 'wire_casing': wc}
-                ctx.case(case, nontrivial=nt, key=(kind, g, scheme, toks))
+                ctx.case(case, nontrivial=nt, key=(kind, g, scheme, toks, idx >= len(rows)))
                 n_a1 += 1
                 for ao in row['out']:
                     a, want = ao['a'], ao['o']
@@ -514,7 +542,7 @@ def run(ctx):
             else:
                 reads.append((ctx.rng.choice(read_pool), '', 'Title'))
         nt = nontrivial(rq)
-        for kind in ('wsgi', 'asgi'):
+        for kind in kinds(rq):
             q = build(rq, kind, ctx.rng.choice(CASINGS), extra)
             evs, excs = [], []
             for a, hn, c in reads:
